@@ -1,18 +1,23 @@
 use crate::report::Report;
 use crate::Args;
 
+pub mod c03;
+pub mod c04;
 pub mod c10;
 pub mod c11;
 pub mod c12;
 pub mod c16;
 pub mod c19;
 pub mod smoke;
+pub mod srv;
 
 pub fn run(a: &Args) -> Report {
     match a.prop.as_str() {
         "smoke" => smoke::run(a),
         "c19" => c19::run(a),
         "c10" => c10::run(a),
+        "c04" => c04::run(a),
+        "c03" => c03::run(a),
         "c11" => c11::run(a),
         "c12" => c12::run(a),
         "c16" => c16::run(a),
